@@ -469,12 +469,13 @@ def _t_egcd(line, arg=None):
 
 
 def _t_bconst(line, arg=None):
-    """Rbconst: associated constants of bnum types (`BInt::<N>::ONE`, `BInt::<N>::ZERO`, `BInt::ZERO`, `BUint::ONE`) -> outlined
+    """Rbconst: associated constants of bnum types (`BInt::<N>::ONE`, `BInt::<N>::ZERO`, `BInt::ZERO`, `BUint::ONE`, `BUint::ZERO`) -> outlined
     constructors `ol_bint_one::<N>()`, `ol_bint_zero::<N>()`, `ol_bint_zero()`, `ol_buint_one()` (associated constants of
     foreign types are unsupported); assumed contracts: the values 1 / 0"""
     line = re.sub(r'\bBInt::<N>::ONE\b', 'ol_bint_one::<N>()', line)
     line = re.sub(r'\bBInt::<N>::ZERO\b', 'ol_bint_zero::<N>()', line)
     line = re.sub(r'\bBInt::ZERO\b', 'ol_bint_zero()', line)
+    line = re.sub(r'\bBUint::ZERO\b', 'ol_buint_zero()', line)
     return re.sub(r'\bBUint::ONE\b', 'ol_buint_one()', line)
 
 
@@ -568,7 +569,7 @@ def key(line):
     s = re.sub(r'ol_f64_sqrt_u64\((\w+)\)', r'(\1 as f64).sqrt() as u64', s)
     s = re.sub(r'ol_egcd_(i64|i128)\((\w+) as (i64|i128), (\w+) as (i64|i128)\)', r'Integer::extended_gcd(&(\2 as \3), &(\4 as \5))', s)
     s = s.replace('ol_zn_n(zn)', 'zn.n')
-    s = s.replace('ol_bint_one::<N>()', 'BInt::<N>::ONE').replace('ol_bint_zero::<N>()', 'BInt::<N>::ZERO').replace('ol_bint_zero()', 'BInt::ZERO').replace('ol_buint_one()', 'BUint::ONE')
+    s = s.replace('ol_bint_one::<N>()', 'BInt::<N>::ONE').replace('ol_bint_zero::<N>()', 'BInt::<N>::ZERO').replace('ol_bint_zero()', 'BInt::ZERO').replace('ol_buint_one()', 'BUint::ONE').replace('ol_buint_zero()', 'BUint::ZERO')
     s = re.sub(r'ol_egcd_ref\((\w+), (\w+)\)', r'Integer::extended_gcd(&\1, &\2)', s)
     s = s.replace('ol_neutral128(self)', 'Point(M128(0), self.one, self.one)')
     s = re.sub(r'ol_uint_eq_u64\((\w+), ([^()]+)\)', r'\1.try_into() == Ok(\2)', s)
